@@ -157,8 +157,8 @@ CHECKS["C37"] = dict(
     design=[dict(spec="MCMsgShapes.tla", cfg="MCMsgShapes.cfg", workers=2, timeout=300)],
     gen=dict(
         quick=[_c37_gen("dev", "dev"),
-               _c37_gen("raw", "raw", max=120),
-               _c37_gen("seq", "seq", max=100)],
+               _c37_gen("raw", "raw", max=60),
+               _c37_gen("seq", "seq", max=40)],
         thorough=[_c37_gen("dev", "dev"),
                   _c37_gen("raw", "raw"),
                   _c37_gen("seq", "seq", max=1500),
